@@ -33,26 +33,6 @@ def roundtrip_problem(cs, T, v, dumped, eof=False):
     return None
 
 
-def misaligned_embedded(T, seen=None) -> bool:
-    """an ALIGNED structure embedded (directly or as array element) in a PACKED structure at an offset that is not a multiple of its alignment"""
-    from dissect.cstruct.types import BaseArray, Structure
-
-    seen = seen if seen is not None else set()
-    if id(T) in seen or not (isinstance(T, type) and issubclass(T, Structure)):
-        return False
-    seen.add(id(T))
-    for f in T.__fields__:
-        t = f.type
-        while isinstance(t, type) and issubclass(t, BaseArray):
-            t = t.type
-        if isinstance(t, type) and issubclass(t, Structure):
-            if getattr(t, "__align__", False) and not getattr(T, "__align__", False) and f.offset is not None and f.offset % (t.alignment or 1):
-                return True
-            if misaligned_embedded(t, seen):
-                return True
-    return False
-
-
 def has_eof(text: str) -> bool:
     return "[EOF]" in text
 
@@ -82,18 +62,7 @@ def check(run: Run) -> None:
         hist = [("array", "S", cnt)] if j % 2 else [("load", f"struct U{j} {{ S x[{cnt}]; }};")]
         hist += [("add_field", "S", "zz", extra, None), ("load", f"struct main {{ uint8 k; S y[{cnt}]; uint16 t; }};")]
         tie_cases.append(Case(f"struct S {{ {base} }};", align=bool(j % 3 == 0), compiled=bool(j % 2), history=hist))
-    # mixed alignment modes on one cstruct object: a helper type with a member after a dynamically sized one (aligned on the stream position
-    # by both readers) loaded in one mode, `main` - which embeds it at an odd offset - in the other
-    INNERS = ["struct N { uint8 n; char s[n]; uint32 v; };", "struct N { uint8 n; uint16 a[n]; uint64 v; uint8 t; };", "struct N { uint8 a; uint32 b; };",
-              "struct N { char s[]; uint16 v; uint8 w; };", "struct N { uint8 n; uint8 d[n]; int24 v; uint16 f : 5; uint16 g : 11; };"]
-    MAINS = ["struct main { uint8 tag; N i; uint16 end; };", "struct main { uint8 tag; N i[2]; uint8 end; };", "struct main { uint8 t0; uint16 t1; N i; };"]
-    for inner in INNERS:
-        for mn in MAINS:
-            for pa in (True, False):
-                c = Case(inner, endian=rng.choice(["<", ">"]), align=pa, compiled=rng.random() < 0.5, history=[("load_align", mn, not pa)])
-                c._datas = [bytes([rng.randrange(256), rng.randrange(6)]) + bytes(rng.choice([0, 1, 2, 65, 66, 200]) for _ in range(46)) for _ in range(2)] + \
-                           [bytes([7, 0, k, 65, 0, 66]) + rng.randbytes(42) for k in range(4)]
-                tie_cases.append(c)
+    tie_cases += F.mixed_mode_cases(rng)
     for i in range(n + len(tie_cases)):
         static = i % 3 == 0
         c = F.gen_case(rng, depth=2, unions=(i % 5 == 0), static_only=static, max_fields=6) if i < n else tie_cases[i - n]
@@ -153,7 +122,7 @@ def check(run: Run) -> None:
                     prob = roundtrip_problem(cs, T, v, d)
                     if prob:
                         prob["value"] = repr(v)[:300]
-            if prob and it.op[0] == "dump" and any(h[0] == "load_align" and h[2] != c.align for h in c.history) and misaligned_embedded(T) \
+            if prob and it.op[0] == "dump" and F.is_mixed(c) and F.misaligned_embedded(T) \
                     and prob.get("what") in ("parse(dumps(v)) != v", "bytes consumed != len(dumps(v))"):
                 # recorded finding: the tail padding of an aligned structure is computed from the absolute stream position, so an aligned structure that a
                 # PACKED structure embeds at an offset that is not a multiple of its alignment dumps to more bytes than its size and the members
